@@ -87,13 +87,24 @@ def random_model(r):
             body.append(['label', r.choice(labels)])
         elif c < 0.93:
             body.append(['return', ['var', 'x']] if r.random() < 0.7 else ['return', None])
-        else:
+        elif c < 0.97:
             body.append(['expr', 'y', ['call', r.choice(['ff', 'gg', 'hh2']), [['var', 'x']]]])
+        else:
+            # a function statement in the middle of the list RE-binds the name: later calls run the new body (its own labels)
+            body.append(['function', r.choice(['gg', 'hh2']), ['q'], False, False, [s for s in random_model_small(r) if s[0] != 'function']])
     fns = [FF, GG, HH] if r.random() < 0.7 else []
     if r.random() < 0.5:
         fb = [s for s in (random_model_small(r)) if s[0] != 'function']
         fns.append(['function', 'hh2', ['q'], False, r.random() < 0.3, fb])
     return fns + body
+
+
+def redefine_model(r):
+    """define hh2, call it, define it AGAIN with other label positions, call it again (twice)"""
+    call = lambda a: ['expr', 'y', ['call', 'hh2', [a]]]     # noqa: E731
+    fn = lambda: ['function', 'hh2', ['q'], False, False, [s for s in random_model_small(r) if s[0] != 'function']]     # noqa: E731
+    return [fn(), call(num(0)), ['expr', 'x', ['var', 'y']], call(num(1)), fn(), call(num(0)), LOG('m'), call(num(1)),
+            ['expr', 'x', ['bin', '+', ['var', 'x'], ['var', 'y']]], ['return', ['var', 'x']]]
 
 
 def random_model_small(r):
@@ -185,6 +196,8 @@ def run(tier):
     n_rand = 1500 if tier == 'quick' else 20000
     for _ in range(n_rand):
         models.append(('random', random_model(r)))
+    for _ in range(n_rand // 3):
+        models.append(('redefine', redefine_model(r)))
 
     cases = [{'model': m, 'globals': {'x': interp.vflt(0.0), 'y': ['null'], 'eo': ['obj', 1, []]}, 'max': mx, 'twice': True} for _, m in models]
     impl = core.run_impl('run_script', cases)
